@@ -8,6 +8,7 @@ import Dirk.Props.C06
 import Dirk.Spec.Perms
 import Dirk.Spec.Import
 import Dirk.Model.Scatter
+import Dirk.Model.LockTrace
 
 namespace Driver
 open Dirk
@@ -24,6 +25,9 @@ structure DState where
   jprops : List (Bytes × PropData) := []
   jfile : IFile := { metadata := none, data := [] }
   dbB : Option Db := none          -- the re-imported copy after `roundtrip`
+  lastTrace : List LTok := []
+  linBase : Option Inst := none    -- instance state at `lin-begin`
+  linOps : List (Nat × Nat × List String × String) := []   -- (t_inv, t_res, observed states, op line)
   deriving Inhabited
 
 def addPerm (ps : Perms) (client : String) (e : PermEntry) : Perms :=
@@ -90,7 +94,7 @@ def parseProt (a b c : String) : Option Protection :=
 
 def bad (st : DState) (l : String) : DState × Option String := (st, some ("bad-op " ++ l))
 
-def dstep (st : DState) (line : String) : DState × Option String :=
+def dstepCore (st : DState) (line : String) : DState × Option String :=
   match fields line with
   | ["acct", w, n, pk, u] =>
     match unhexStr w, unhexStr n, unhex pk with
@@ -134,7 +138,7 @@ def dstep (st : DState) (line : String) : DState × Option String :=
     match unhexStr c, parseAddr addr, parseAtt (d.splitOn ","), parseFaults f with
     | some c, some a, some d, some f =>
       let (s', p) := signAtt st.inst c a d f.f (f.signFail.contains 0)
-      ({ st with inst := s' }, some (posStr p))
+      ({ st with inst := s', lastTrace := traceAtt st.inst c a d ++ (if p.root.isSome then [.sign] else []) }, some (posStr p))
     | _, _, _, _ => bad st line
   | ["atts", c, _ip, f, items] =>
     let its := (splitItems items).mapM (fun fs =>
@@ -146,7 +150,7 @@ def dstep (st : DState) (line : String) : DState × Option String :=
     match unhexStr c, parseFaults f, its with
     | some c, some f, some its =>
       let (s', ps) := signAtts st.inst c its f.f f.signFail
-      ({ st with inst := s' }, some (manyStr ps))
+      ({ st with inst := s', lastTrace := traceAtts st.inst c its ++ List.replicate (ps.filter (·.root.isSome)).length .sign }, some (manyStr ps))
     | _, _, _ => bad st line
   | ["atts0", c, _ip] =>
     match unhexStr c with
@@ -156,13 +160,13 @@ def dstep (st : DState) (line : String) : DState × Option String :=
     match unhexStr c, parseAddr addr, parseProp (d.splitOn ","), parseFaults f with
     | some c, some a, some d, some f =>
       let (s', p) := signProp st.inst c a d f.f (f.signFail.contains 0)
-      ({ st with inst := s' }, some (posStr p))
+      ({ st with inst := s', lastTrace := traceProp st.inst c a d ++ (if p.root.isSome then [.sign] else []) }, some (posStr p))
     | _, _, _, _ => bad st line
   | ["sign", c, ip, addr, d, f] =>
     match unhexStr c, ipOf ip, parseAddr addr, parseSign (d.splitOn ","), parseFaults f with
     | some c, some ip, some a, some d, some f =>
       let (s', p) := signGeneric st.inst c ip a d (f.signFail.contains 0)
-      ({ st with inst := s' }, some (posStr p))
+      ({ st with inst := s', lastTrace := traceSign st.inst c a d ++ (if p.root.isSome then [.sign] else []) }, some (posStr p))
     | _, _, _, _, _ => bad st line
   | ["msign", c, ip, f, items] =>
     let its := (splitItems items).mapM (fun fs =>
@@ -174,8 +178,25 @@ def dstep (st : DState) (line : String) : DState × Option String :=
     match unhexStr c, ipOf ip, parseFaults f, its with
     | some c, some ip, some f, some its =>
       let (s', ps) := multisign st.inst c ip its f.signFail
-      ({ st with inst := s' }, some (manyStr ps))
+      ({ st with inst := s', lastTrace := traceMsign st.inst c its ++ List.replicate (ps.filter (·.root.isSome)).length .sign }, some (manyStr ps))
     | _, _, _, _ => bad st line
+  | ["locktrace"] => (st, none)
+  | ["ltrace"] =>
+    let tok (t : LTok) : String := match t with
+      | .pre => "P" | .post => "Q" | .fetch => "F" | .store => "S" | .stored => "X" | .sign => "G"
+      | .lock k => "L:" ++ hex (k.take 4) | .unlock k => "U:" ++ hex (k.take 4)
+    (st, some (if st.lastTrace.isEmpty then "-" else " ".intercalate (st.lastTrace.map tok)))
+  | ["syncwrites"] => (st, some "true")
+  -- judge C03: after a kill and restart the exported record (es, et) must cover a signature (s, t)
+  -- that had been returned before the kill
+  | ["jcoveratt", s, t, es, et] =>
+    match s.toInt?, t.toInt?, es.toInt?, et.toInt? with
+    | some s, some t, some es, some et => (st, some (if decide (s ≤ es) && decide (t ≤ et) then "ok" else "NOT-RECORDED"))
+    | _, _, _, _ => bad st line
+  | ["jcoverprop", slot, eslot] =>
+    match slot.toInt?, eslot.toInt? with
+    | some a, some b => (st, some (if decide (a ≤ b) then "ok" else "NOT-RECORDED"))
+    | _, _ => bad st line
   | ["restart"] => (st, some "ok")
   | ["export"] => (st, some (exportLine st.inst.db))
   -- judge: released signatures observed on the implementation, evaluated by the Spec predicates
@@ -185,6 +206,13 @@ def dstep (st : DState) (line : String) : DState × Option String :=
       let v := Spec.voteOf d
       let clash := st.jvotes.any (fun e => e.1 == k && decide (Spec.Slashable e.2 v))
       ({ st with jvotes := st.jvotes ++ [(k, v)] }, some (if clash then "SLASHABLE" else "ok"))
+    | _, _ => bad st line
+  -- order-free variant (concurrent requests): two different proposals released for one slot
+  | ["jpropd", k, d] =>
+    match unhex k, parseProp (d.splitOn ",") with
+    | some k, some d =>
+      let clash := st.jprops.any (fun e => e.1 == k && decide (Spec.DoubleProposal e.2 d))
+      ({ st with jprops := st.jprops ++ [(k, d)] }, some (if clash then "DOUBLE-PROPOSAL" else "ok"))
     | _, _ => bad st line
   | ["jprop", k, d] =>
     match unhex k, parseProp (d.splitOn ",") with
@@ -313,5 +341,37 @@ def dstep (st : DState) (line : String) : DState × Option String :=
                      root := if hasSig == "1" then some [] else none }
     (st, some (if decide (p.root ≠ none ↔ p.res = .succeeded) then "ok" else "NOT-CLOSED"))
   | _ => bad st line
+
+/-- state letters of a result line (`S:abcd D` → [S, D]) -/
+def lettersOf (line : String) : List String :=
+  ((line.splitOn " ").filter (· ≠ "")).map (fun p => (p.splitOn ":").headD "")
+
+/-- Wing–Gong style search: is there an order of the remaining operations, compatible with their
+    real-time order, in which the sequential model produces the observed results and final export? -/
+def linSearch : Nat → DState → List (Nat × Nat × List String × String) → String → Bool
+  | 0, st, rem, final => rem.isEmpty && (exportLine st.inst.db).trimAscii.toString == final
+  | fuel + 1, st, rem, final =>
+    if rem.isEmpty then (exportLine st.inst.db).trimAscii.toString == final else
+    rem.any (fun c =>
+      -- c may go first only if no other remaining operation finished before c was invoked
+      let minimal := rem.all (fun r => !(decide (r.2.1 < c.1)))
+      if !minimal then false else
+      let (st', out) := dstepCore st c.2.2.2
+      if lettersOf (out.getD "") != c.2.2.1 then false
+      else linSearch fuel st' (rem.erase c) final)
+
+def dstep (st : DState) (line : String) : DState × Option String :=
+  match fields line with
+  | ["lin-begin"] => ({ st with linBase := some st.inst, linOps := [] }, some "ok")
+  | "lin-op" :: tinv :: tres :: obs :: op =>
+    match tinv.toNat?, tres.toNat? with
+    | some a, some b =>
+      ({ st with linOps := st.linOps ++ [(a, b, (obs.splitOn "+").map (fun p => (p.splitOn ":").headD ""), " ".intercalate op)] },
+       some "ok")
+    | _, _ => bad st line
+  | "lin-end" :: final =>
+    let ok := linSearch (st.linOps.length + 1) st st.linOps (" ".intercalate final).trimAscii.toString
+    (st, some (if ok then "LINEARIZABLE" else "NOT-LINEARIZABLE"))
+  | _ => dstepCore st line
 
 end Driver
